@@ -710,8 +710,10 @@ class Interp:
                 left = right
             return BOOL
         if isinstance(node, ast.BoolOp):
-            for v in node.values:
-                self._eval(v, env)
+            vals = [self._eval(v, env) for v in node.values]
+            fns = [v for v in vals if v.kind == "befn"]
+            if fns and all(v.kind in ("befn", "none") for v in vals):
+                return fns[0]  # `getattr(be, 'atanh', None) or be.arctanh`: some elementary function of the backend
             return BOOL
         if isinstance(node, ast.IfExp):
             t = self.truth(node.test, env)
@@ -980,6 +982,8 @@ class Interp:
                 return v
         if fv is not None and fv.kind == "befn":
             return self.math_call(fv.name, fv.extra, args, node, raw=(fv.extra == "math"))
+        if fname == "getattr" and len(args) >= 2 and args[0].kind == "be" and isinstance(node.args[1], ast.Constant) and isinstance(node.args[1].value, str):
+            return V("befn", name=node.args[1].value, extra=args[0].name)
         short = (fname or "").split(".")[-1]
         if fname in RAW_NUMERIC:
             if args:
@@ -1114,6 +1118,12 @@ class Interp:
                 self.report("transcendental", node, "%s of `%s`, which has dimension %s" % (fn, U(node.args[0])[:60] if node.args else "", dim_str(x.dim)))
             elif x.kind == "q" and x.dim == {} and raw:
                 self.raw_sink(x, node, "%s.%s" % (modname, fn))
+            # f(0) for the elementary functions (constant folding only)
+            if x.kind == "q" and x.dim == {} and x.unit == {} and x.val is not None and lx_const(x.val) == 0:
+                if fn in ("cos", "exp", "cosh", "exp2"):
+                    return num(1)
+                if fn in ("sin", "tan", "sinh", "tanh", "asin", "arcsin", "atan", "arctan", "asinh", "arcsinh", "atanh", "arctanh", "expm1", "log1p"):
+                    return num(0)
             return V("q", dim={}, unit={}, val=None)
         if fn in ("abs", "fabs", "asarray", "array", "sum", "atleast_1d", "squeeze", "ones_like", "zeros_like"):
             x = args[0] if args else TOP
